@@ -278,7 +278,12 @@ func b2u(b bool) uint64 {
 func c19HevcSps(r *rand.Rand) ([]byte, spsTruth) {
 	w := &bitW{}
 	w.u(4, 0)
-	w.u(3, 0) // sps_max_sub_layers_minus1
+	// temporal sub-layers (two or three are common with hierarchical-P / SVC-T encoders)
+	m := 0
+	if r.Intn(3) == 0 {
+		m = 1 + r.Intn(6)
+	}
+	w.u(3, uint64(m)) // sps_max_sub_layers_minus1
 	w.u(1, 1)
 	// profile_tier_level(1, 0)
 	w.u(2, 0)
@@ -293,6 +298,34 @@ func c19HevcSps(r *rand.Rand) ([]byte, spsTruth) {
 	w.u(11, 0)
 	w.u(1, 0)
 	w.u(8, uint64([]int{30, 60, 63, 90, 93, 120, 123, 150, 153}[r.Intn(9)]))
+	// sub-layer part of profile_tier_level (H.265 7.3.3)
+	var subProf, subLev []bool
+	for i := 0; i < m; i++ {
+		subProf = append(subProf, r.Intn(2) == 0)
+		subLev = append(subLev, r.Intn(2) == 0)
+		w.u(1, b2u(subProf[i]))
+		w.u(1, b2u(subLev[i]))
+	}
+	if m > 0 {
+		for i := m; i < 8; i++ {
+			w.u(2, 0)
+		}
+	}
+	for i := 0; i < m; i++ {
+		if subProf[i] {
+			w.u(2, 0)
+			w.u(1, uint64(r.Intn(2)))
+			w.u(5, uint64(1+r.Intn(2)))
+			w.u(32, uint64(r.Uint32()))
+			w.u(4, uint64(r.Intn(16)))
+			w.u(32, uint64(r.Uint32()))
+			w.u(11, uint64(r.Intn(2048)))
+			w.u(1, uint64(r.Intn(2)))
+		}
+		if subLev[i] {
+			w.u(8, uint64([]int{30, 60, 63, 90, 93, 120, 123, 150, 153, 0x55, 0xaa, 0xfd}[r.Intn(12)]))
+		}
+	}
 	w.ue(uint64(r.Intn(16)))
 	chroma := r.Intn(4)
 	if r.Intn(2) == 0 {
@@ -339,10 +372,17 @@ func c19HevcSps(r *rand.Rand) ([]byte, spsTruth) {
 	w.ue(uint64(r.Intn(3)))
 	w.ue(uint64(r.Intn(3)))
 	w.ue(uint64(r.Intn(13)))
-	w.u(1, 1)
-	w.ue(uint64(1 + r.Intn(5)))
-	w.ue(uint64(r.Intn(3)))
-	w.ue(uint64(r.Intn(3)))
+	ordPresent := m == 0 || r.Intn(2) == 0
+	w.u(1, b2u(ordPresent)) // sps_sub_layer_ordering_info_present_flag
+	first := m
+	if ordPresent {
+		first = 0
+	}
+	for i := first; i <= m; i++ {
+		w.ue(uint64(1 + r.Intn(5)))
+		w.ue(uint64(r.Intn(3)))
+		w.ue(uint64(r.Intn(3)))
+	}
 	w.ue(0)
 	w.ue(uint64(r.Intn(4)))
 	w.ue(0)
